@@ -26,7 +26,7 @@ pub(crate) fn tuple(attr: &StructAttr, ts_name: Expr, fields: &FieldsUnnamed) ->
         inline: quote! {
             format!(
                 "[{}]",
-                [#(#formatted_fields),*].join(", ")
+                <[String]>::join(&[#(#formatted_fields),*], ", ")
             )
         },
         inline_flattened: None,
